@@ -195,16 +195,25 @@ Definition lfs_step (st : list verror) (e : event) (c : ctx) : list verror :=
 Definition query_type_name (s : sdocument) : name :=
   match sd_query (schema_definition s) with Some q => q | None => "Query" end.
 
+(* count_root_typename_fields: the `__typename` fields at the root of a selection set, also when they
+   are wrapped in (nested) inline fragments without a type condition; inline fragments with a type
+   condition and fragment spreads are not looked through.  items.iter().map(..).sum() *)
+Fixpoint count_root_typename (x : selection) : nat :=
+  match x with
+  | SField _ _ n _ _ _ _ => if name_eqb n "__typename" then 1 else 0
+  | SInline _ None _ _ ss => list_sum (map count_root_typename ss)
+  | _ => 0
+  end.
+Definition count_root_typename_fields (items : list selection) : nat :=
+  list_sum (map count_root_typename items).
+
 Definition foct_step (s : sdocument) (st : list verror) (e : event) (c : ctx) : list verror :=
   match e with
   | Enter (NOperation o) =>
       match o_kind o with
       | OpSubscription =>
-          st ++ flat_map (fun x => match x with
-                                   | SField _ _ n _ _ _ _ =>
-                                       if name_eqb n "__typename" then [err R_FieldsOnCorrectType [o_pos o]] else []
-                                   | _ => []
-                                   end) (o_sels o)
+          (* for _ in 0..count_root_typename_fields(..) { report_error(.. subscription.position) } *)
+          st ++ repeat (err R_FieldsOnCorrectType [o_pos o]) (count_root_typename_fields (o_sels o))
       | _ => st
       end
   | Enter (NField (SField p _ n _ _ _ _)) =>
